@@ -134,9 +134,8 @@ class ReleaseTag:
     number: int = dataclasses.field(default=0)
 
     def __post_init__(self) -> None:
-        object.__setattr__(
-            self, "phase", RELEASE_PHASE_NORMALIZATIONS.get(self.phase, self.phase)
-        )
+        phase = self.phase.lower()
+        object.__setattr__(self, "phase", RELEASE_PHASE_NORMALIZATIONS.get(phase, phase))
 
     def to_string(self) -> str:
         return f"{self.phase}{self.number}"
